@@ -42,14 +42,14 @@ Theorem C08_concatenation_from_text : forall cfg parse_float regex_ok ffun afun 
   (forall f l w, Forall small l -> afun f l = Some w -> small w) ->
   cfg_accessor cfg = false ->
   forall p0 p q0 q doc st,
-  forallb fstep_ok ((p0 :: p) ++ q0 :: q) = true -> forallb (fstep_okp parse_float) ((p0 :: p) ++ q0 :: q) = true ->
+  forallb fstep_ok ((p0 :: p) ++ q0 :: q) = true -> forallb (fstep_okp parse_float regex_ok) ((p0 :: p) ++ q0 :: q) = true ->
   forallb (fstep_rootfree) (q0 :: q) = true -> small doc -> ok st ->
   exists tpq tq,
     parse_with cfg parse_float regex_ok jsonpath_grammar (fchain_path ((p0 :: p) ++ q0 :: q)) = ParseOk tpq /\
     parse_with cfg parse_float regex_ok jsonpath_grammar (fchain_path (q0 :: q)) = ParseOk tq /\
     vals_of (fst (eval_run ffun afun regex_match tpq doc st)) =
-      flat_map (fun lv => vals_of (fst (eval_run ffun afun regex_match tq (snd lv) st))) (nav_allf parse_float doc (p0 :: p) ([], doc)) /\
+      flat_map (fun lv => vals_of (fst (eval_run ffun afun regex_match tq (snd lv) st))) (nav_allf parse_float regex_match doc (p0 :: p) ([], doc)) /\
     ((exists e, fst (eval_run ffun afun regex_match tpq doc st) = OErr e) <->
-     flat_map (fun lv => vals_of (fst (eval_run ffun afun regex_match tq (snd lv) st))) (nav_allf parse_float doc (p0 :: p) ([], doc)) = []).
+     flat_map (fun lv => vals_of (fst (eval_run ffun afun regex_match tq (snd lv) st))) (nav_allf parse_float regex_match doc (p0 :: p) ([], doc)) = []).
 Proof. exact concatenation_from_text. Qed.
 Print Assumptions C08_concatenation_from_text.
